@@ -156,10 +156,7 @@ def declare(spec):
     # ---- class change after service (C09) --------------------------------------------------------------
     add(spec, "Node.change_customer_class",
         types={"individual": IND},
-        requires=[INV("net_ok(self)"), "cls_ok(self, individual)",
-                  "implies(self.class_change, individual.customer_class in self.class_change and "
-                  "forall_in(self.simulation.network.customer_class_names, lambda b: b in self.class_change[individual.customer_class] "
-                  "and is_fin(self.class_change[individual.customer_class][b]) and self.class_change[individual.customer_class][b] >= 0))"],
+        requires=[INV("net_ok(self)"), "cls_ok(self, individual)", INV("class_change_ok(self)")],
         call_assumes={"random_choice": ["sum_r(probs) == 1"]},
         modifies=["previous_class@individual", "customer_class@individual", "prev_priority_class@individual",
                   "priority_class@individual"], allocates=True,
@@ -565,6 +562,19 @@ def declare(spec):
             ("C07:head-of-the-blocked-queue-popped",
              "S(self.blocked_queue) == remove_at(old(S(self.blocked_queue)), 0) and self.len_blocked_queue == old(self.len_blocked_queue) - 1"),
             ("C07:only-when-there-is-room", "self.number_of_individuals < self.node_capacity"),
+            ("C01:populations-untouched-until-the-release",
+             "node_to_receive_from.number_of_individuals == old(node_to_receive_from.number_of_individuals) "
+             "and self.number_of_individuals == old(self.number_of_individuals) "
+             "and node_to_receive_from.number_in_service == old(node_to_receive_from.number_in_service)"),
+            ("C07:the-customer-received-is-the-one-named-by-the-head-entry",
+             "individual_to_receive.id_number == old(self.blocked_queue[0][1]) and ref_eq(node_to_receive_from, old(self.simulation.nodes[self.blocked_queue[0][0]]))"),
+            ("C12:an-interrupted-blocked-customer-leaves-the-interrupted-list",
+             "implies(old(individual_to_receive.interrupted), not individual_to_receive.interrupted "
+             "and node_to_receive_from.number_interrupted_individuals == old(node_to_receive_from.number_interrupted_individuals) - 1 "
+             "and S(node_to_receive_from.interrupted_individuals) == remove1(old(S(node_to_receive_from.interrupted_individuals)), individual_to_receive) "
+             "and individual_to_receive.service_start_date == old(individual_to_receive.original_service_start_date))"),
+            ("C12:otherwise-the-interrupted-list-is-untouched",
+             "implies(not old(individual_to_receive.interrupted), node_to_receive_from.number_interrupted_individuals == old(node_to_receive_from.number_interrupted_individuals))"),
         ]},
         cases=[
             dict(name="nothing-to-do", when="not (self.len_blocked_queue > 0 and self.number_of_individuals < self.node_capacity)",
@@ -573,3 +583,79 @@ def declare(spec):
                  modifies=["*"], ensures=[], expect_calls={"release": 1}),
         ],
         props=["C01", "C07"])
+
+    # ---- reneging (C13) ------------------------------------------------------------------------------------------------
+    M["all_nodes_alike"] = ("lambda n: forall_obj('Node', lambda m: shape(m) and ref_eq(m.simulation, n.simulation))")
+    M["renege_cand_ok"] = (
+        "lambda n, x: is_obj(x, 'Individual') and prev_prio_ok(n, as_obj(x, 'Individual')) "
+        "and as_obj(x, 'Individual') in n.individuals[as_obj(x, 'Individual').prev_priority_class] and ref_eq(loc(as_obj(x, 'Individual')), n) "
+        "and not as_obj(x, 'Individual').server and has(as_obj(x, 'Individual'), 'reneging_date') "
+        "and as_obj(x, 'Individual').reneging_date == n.now "
+        "and is_time(as_obj(x, 'Individual').arrival_date) and is_fin(as_obj(x, 'Individual').arrival_date) "
+        "and as_obj(x, 'Individual').arrival_date <= n.now and cls_ok(n, as_obj(x, 'Individual')) "
+        "and 0 <= as_obj(x, 'Individual').priority_class and as_obj(x, 'Individual').priority_class < n.simulation.number_of_priority_classes")
+
+    add(spec, "Node.renege",
+        requires=[INV("shape(self)"), INV("net_ok(self)"), INV("float_clock(self)"), INV("all_nodes_alike(self)"),
+                  ("C13:event-fires-for-waiting-customers-whose-patience-ends-now",
+                   "is_list(self.next_individual) and len(as_list(self.next_individual, 'Any')) > 0 and "
+                   "forall_in(as_list(self.next_individual, 'Any'), lambda x: renege_cand_ok(self, x))")],
+        modifies=["*"], allocates="any", raises=[("ValueError", "True")],
+        at_call={"accept": [
+            ("C01:removed-once-from-its-line",
+             "S(self.individuals[old(reneging_individual.prev_priority_class)]) == remove1(old(S(self.individuals[reneging_individual.prev_priority_class])), reneging_individual)"),
+            ("C01:population-counter-decremented", "self.number_of_individuals == old(self.number_of_individuals) - 1"),
+            ("C09+C13:a-waiting-customer-was-not-in-service", "self.number_in_service == old(self.number_in_service)"),
+            ("C01:customer-is-nowhere-between-renege-and-accept", "loc(reneging_individual) is None"),
+            ("C13:renege-record-written-once",
+             "len(reneging_individual.data_records) == old(len(reneging_individual.data_records)) + 1 "
+             "and reneging_individual.data_records[len(reneging_individual.data_records) - 1].record_type == 'renege' "
+             "and reneging_individual.data_records[len(reneging_individual.data_records) - 1].node == self.id_number "
+             "and reneging_individual.data_records[len(reneging_individual.data_records) - 1].exit_date == self.now"),
+            ("C02+C13:waited-exactly-its-patience",
+             "reneging_individual.data_records[len(reneging_individual.data_records) - 1].waiting_time == self.now - old(reneging_individual.arrival_date) "
+             "and reneging_individual.data_records[len(reneging_individual.data_records) - 1].waiting_time >= 0"),
+            ("C03:renege-record-names-the-node-the-customer-goes-to",
+             "reneging_individual.data_records[len(reneging_individual.data_records) - 1].destination == next_node.id_number"),
+            ("C13:the-reneger-is-one-of-the-customers-whose-patience-ended", "old(reneging_individual in as_list(self.next_individual, 'Any'))"),
+        ]},
+        expect_calls={"accept": 1, "change_state_renege": 1, "release_blocked_individual": 1},
+        props=["C01", "C02", "C03", "C07", "C09", "C13", "C17"])
+
+    # ---- end of service: class change, routing, move on or block (C06 / C07 / C03) ----------------------------------
+    M["finish_cand_ok"] = (
+        "lambda n, x: is_obj(x, 'Individual') and prev_prio_ok(n, as_obj(x, 'Individual')) and prio_ok(n, as_obj(x, 'Individual')) "
+        "and as_obj(x, 'Individual').prev_priority_class == as_obj(x, 'Individual').priority_class "
+        "and as_obj(x, 'Individual') in n.individuals[as_obj(x, 'Individual').priority_class] and ref_eq(loc(as_obj(x, 'Individual')), n) "
+        "and holds_server(n, as_obj(x, 'Individual')) and implies(isinf(n.c), not as_obj(x, 'Individual').server) "
+        "and not as_obj(x, 'Individual').is_blocked and cls_ok(n, as_obj(x, 'Individual')) and float_dates(as_obj(x, 'Individual')) "
+        "and in_service_dates_ok(n, as_obj(x, 'Individual')) and as_obj(x, 'Individual').service_end_date == n.now")
+    M["class_change_ok"] = (
+        "lambda n: implies(n.class_change, forall_member(n.simulation.network.customer_class_names, lambda a: "
+        "forall_in(n.simulation.network.customer_class_names, lambda b: is_fin(n.class_change[a][b]) and n.class_change[a][b] >= 0)))")
+
+    add(spec, "Node.finish_service",
+        requires=[INV("shape(self)"), INV("net_ok(self)"), INV("float_clock(self)"), INV("has_servers(self)"), INV("dyn_ok(self)"),
+                  INV("pop_fwd(self)"), INV("all_waiting_ok(self)"), INV("all_nodes_alike(self)"), INV("class_change_ok(self)"),
+                  INV("self.number_interrupted_individuals == len(self.interrupted_individuals)"),
+                  INV("implies(not isinf(self.c) and self.number_interrupted_individuals > 0, interrupted_head_ok(self))"),
+                  INV("implies(self.dynamic_classes, forall_in(self.individuals, lambda q: forall_in(q, lambda i: has(i, 'class_change_date'))))"),
+                  "is_fin(self.next_event_date) or is_pinf(self.next_event_date)",
+                  INV("implies(self.slotted, self.c == 0)"),
+                  INV("forall_obj('ExitNode', lambda x: isinf(x.node_capacity))"),
+                  ("C02:event-fires-for-unblocked-customers-whose-service-ends-now",
+                   "is_list(self.next_individual) and len(as_list(self.next_individual, 'Any')) > 0 and "
+                   "forall_in(as_list(self.next_individual, 'Any'), lambda x: finish_cand_ok(self, x))")],
+        call_assumes={"random_choice": ["implies(probs is not None, sum_r(probs) == 1)"]},
+        modifies=["*"], allocates="any", raises=[("ValueError", "True")],
+        at_call={"release": [
+            ("C03:destination-fixed-once-before-leaving", "next_individual.destination == next_node.id_number"),
+            ("C07:moves-on-at-once-only-if-the-destination-has-room", "next_node.number_of_individuals < next_node.node_capacity"),
+        ], "block_individual": [
+            ("C03:destination-fixed-once-before-blocking", "next_individual.destination == next_node.id_number"),
+            ("C07:the-blocked-customer-keeps-its-server-and-is-not-finished-again",
+             "implies(not isinf(self.c) and not self.slotted, is_obj(next_individual.server, 'Server') "
+             "and is_pinf(as_obj(next_individual.server, 'Server').next_end_service_date) and ref_eq(next_individual.server, old(next_individual.server)))"),
+            ("C01:a-blocked-customer-stays-where-it-is", "ref_eq(loc(next_individual), self) and self.number_of_individuals == old(self.number_of_individuals)"),
+        ]},
+        props=["C03", "C06", "C07", "C09"])
